@@ -950,3 +950,24 @@ func (eng *Engine) findInstance(g *ssa.Function, name string) *ssa.Function {
 	}
 	return eng.instances[g.Pkg.Pkg.Path()+"."+name]
 }
+
+// blockInCycle: can control return to b after leaving it?
+func blockInCycle(b *ssa.BasicBlock) bool {
+	seen := map[*ssa.BasicBlock]bool{}
+	var walk func(x *ssa.BasicBlock) bool
+	walk = func(x *ssa.BasicBlock) bool {
+		for _, s := range x.Succs {
+			if s == b {
+				return true
+			}
+			if !seen[s] {
+				seen[s] = true
+				if walk(s) {
+					return true
+				}
+			}
+		}
+		return false
+	}
+	return walk(b)
+}
